@@ -75,6 +75,8 @@ var writerCalls = []wcall{
 	{"WriteSymbolFromString(t)", func(w ion.Writer) error { return w.WriteSymbolFromString("t") }, ckValue, model.SymV(model.T("t"))},
 	{"WriteSymbolFromString(zzz)", func(w ion.Writer) error { return w.WriteSymbolFromString("zzz") }, ckValue, model.SymV(model.T("zzz"))},
 	{"WriteSymbol(zzz)", func(w ion.Writer) error { return w.WriteSymbol(tokT("zzz")) }, ckValue, model.SymV(model.T("zzz"))},
+	{"FieldName(invalid token)", func(w ion.Writer) error { return w.FieldName(ion.SymbolToken{LocalSID: ion.SymbolIDUnknown}) }, ckField, "!invalid"},
+	{"Annotation(invalid token)", func(w ion.Writer) error { return w.Annotation(ion.SymbolToken{LocalSID: ion.SymbolIDUnknown}) }, ckAnnot, []string{"!invalid"}},
 	{"WriteClob", func(w ion.Writer) error { return w.WriteClob([]byte("c\"}\x00")) }, ckValue, model.ClobV([]byte("c\"}\x00"))},
 	{"WriteBlob", func(w ion.Writer) error { return w.WriteBlob([]byte{0, 1, 2, 255}) }, ckValue, model.BlobV([]byte{0, 1, 2, 255})},
 }
@@ -121,6 +123,15 @@ func (s *shadow) legal(c wcall, config int) bool {
 	case ckValue, ckBegin:
 		if s.inStruct() && s.field == nil {
 			return false
+		}
+		// a pending token with neither text nor id cannot be written
+		if s.inStruct() && s.field != nil && *s.field == "!invalid" {
+			return false
+		}
+		for _, a := range s.anns {
+			if a == "!invalid" {
+				return false
+			}
 		}
 		if str, ok := c.arg.(string); ok && str == "invalid" {
 			return false
